@@ -746,6 +746,10 @@ func (x *executor) modTargetOf(ev *evaluator, e Expr) modTarget {
 			// pointer to a local variable of the caller (e.g. a method with pointer receiver called on a local)
 			return modTarget{cell: p.cell, typ: p.base}
 		}
+		if p.kind == pkElem {
+			// pointer to an array element: the whole array (coarse)
+			return modTarget{heap: false, typ: p.base, sort: heapKey(p.base), ref: p.ref}
+		}
 		if p.kind != pkHeap {
 			ev.fail("modifies target must point into the object heap")
 		}
